@@ -1,5 +1,6 @@
 import MitumModel.Model.Crash
 import MitumModel.Props.C19
+import MitumModel.Props.C20
 import MitumModel.Gen.C21
 import MitumModel.Pins
 /-!
@@ -54,9 +55,116 @@ example :
     let d : Disk := { recs := [1, 2], tempRecs := [1], tempMap := false, marker := false, permRecs := [], permMap := false }
     reachable true d = true ∧ recover d = .invisible := by decide
 
+/-! ### a removal of several blocks that is interrupted (model of `Model/ReopenTemps.lean`) -/
+section removal
+open Mitum.ReopenTemps Mitum.C20
+
+/-- the order in which `RemoveBlocks(h)` removes the temps from `h` up: `topDown` is the newest first -/
+def removeSeq (topDown : Bool) (s : St) (h : Nat) : List Nat :=
+  if topDown then (s.mem.drop (h - s.perm)).reverse else s.mem.drop (h - s.perm)
+
+/-- the storage after a process that stopped when `k` of these removals had reached it -/
+def crashedDisk (topDown : Bool) (s : St) (h k : Nat) : List Pfx :=
+  s.disk.filter (fun p => !((removeSeq topDown s h).take k).contains p.id)
+
+/-- what the next process finds: the storage, and the temps its Center loads -/
+def recovered (topDown : Bool) (s : St) (h k : Nat) : St :=
+  let d := crashedDisk topDown s h k
+  { s with disk := d, mem := reopen fixed { s with disk := d } }
+
+theorem inv_foldl (ops : List Op) : ∀ s, C20.Inv s → C20.Inv (ops.foldl (step fixed) s) := by
+  induction ops with
+  | nil => intro s h; exact h
+  | cons op rest ih => intro s h; exact ih _ (inv_step s op h)
+
+theorem take_reverse_drop (l : List Nat) (j k : Nat) (hj : j ≤ l.length) (hk : k ≤ l.length - j) :
+    ((l.drop j).reverse.take k) = (l.drop (l.length - k)).reverse := by
+  rw [List.take_reverse, List.drop_drop]
+  congr 2
+  simp only [List.length_drop]
+  omega
+
+/-- a top-down removal that stopped after `k` removals left the storage a completed removal leaves -/
+theorem crashedDisk_topDown (s : St) (h k : Nat) (h2 : h - s.perm ≤ s.mem.length) (hk : k ≤ s.mem.length - (h - s.perm)) (hk0 : 0 < k) :
+    crashedDisk true s h k = (step fixed s (.remove (s.perm + (s.mem.length - k)))).disk := by
+  have hlt : s.perm ≤ s.perm + (s.mem.length - k) ∧ s.perm + (s.mem.length - k) < s.perm + s.mem.length := by omega
+  simp only [crashedDisk, removeSeq, step, hlt, and_self, if_true, fixed]
+  rw [take_reverse_drop s.mem (h - s.perm) k h2 hk]
+  have e : s.perm + (s.mem.length - k) - s.perm = s.mem.length - k := by omega
+  rw [e]
+  congr 1
+  funext p
+  congr 1
+  rw [Bool.eq_iff_iff]
+  simp
+
+theorem reopen_disk_perm (s t : St) (hd : s.disk = t.disk) (hp : s.perm = t.perm) : reopen fixed s = reopen fixed t := by
+  unfold reopen; rw [hd, hp]
+
+/-- **interrupted_removal_recovers_prefix.**  `RemoveBlocks(h)` removes the temps newest first.  If the process stops
+after `k` of the removals, the next process finds exactly the blocks that were not removed yet — a prefix of the
+chain, each block with its whole temp or not at all — and the storage it finds is one a completed removal leaves, so
+the invariant of `reopen_temps_equal` holds for it again. -/
+theorem interrupted_removal_recovers_prefix (s : St) (hi : C20.Inv s) (h k : Nat) (h1 : s.perm ≤ h)
+    (h2 : h < s.perm + s.mem.length) (hk : k ≤ s.mem.length - (h - s.perm)) :
+    (recovered true s h k).mem = s.mem.take (s.mem.length - k) ∧ C20.Inv (recovered true s h k) := by
+  by_cases hk0 : k = 0
+  · subst hk0
+    have hd : crashedDisk true s h 0 = s.disk := by
+      simp [crashedDisk]
+    have hr : recovered true s h 0 = s := by
+      unfold recovered
+      simp only [hd]
+      have : ({ s with disk := s.disk } : St) = s := by cases s; rfl
+      rw [this, reopen_of_inv s hi]
+    rw [hr]
+    exact ⟨by simp, hi⟩
+  · have hpos : 0 < k := Nat.pos_of_ne_zero hk0
+    have hd := crashedDisk_topDown s h k (by omega) hk hpos
+    have hlt : s.perm ≤ s.perm + (s.mem.length - k) ∧ s.perm + (s.mem.length - k) < s.perm + s.mem.length := by omega
+    have hi' := inv_step s (.remove (s.perm + (s.mem.length - k))) hi
+    have hmem : (step fixed s (.remove (s.perm + (s.mem.length - k)))).mem = s.mem.take (s.mem.length - k) := by
+      simp only [step, hlt, and_self, if_true]
+      congr 1; omega
+    have hperm : (step fixed s (.remove (s.perm + (s.mem.length - k)))).perm = s.perm := by
+      simp only [step, hlt, and_self, if_true]
+    have hnext : (step fixed s (.remove (s.perm + (s.mem.length - k)))).next = s.next := by
+      simp only [step, hlt, and_self, if_true]
+    have hr : recovered true s h k = step fixed s (.remove (s.perm + (s.mem.length - k))) := by
+      unfold recovered
+      simp only [hd]
+      rw [reopen_disk_perm ({ s with disk := (step fixed s (.remove (s.perm + (s.mem.length - k)))).disk } : St)
+        (step fixed s (.remove (s.perm + (s.mem.length - k)))) rfl hperm.symm, reopen_of_inv _ hi']
+      generalize hs' : step fixed s (.remove (s.perm + (s.mem.length - k))) = s' at hperm hnext
+      cases s; cases s'
+      simp only at hperm hnext
+      subst hperm; subst hnext; rfl
+    rw [hr]
+    exact ⟨hmem, hi'⟩
+
+/-- and whatever is done with the recovered database afterwards, a Center opened on it has the temps the running one has -/
+theorem continue_after_interrupted_removal (s : St) (hi : C20.Inv s) (h k : Nat) (h1 : s.perm ≤ h)
+    (h2 : h < s.perm + s.mem.length) (hk : k ≤ s.mem.length - (h - s.perm)) (ops : List Op) :
+    reopen fixed (ops.foldl (step fixed) (recovered true s h k)) = (ops.foldl (step fixed) (recovered true s h k)).mem :=
+  reopen_of_inv _ (inv_foldl ops _ (interrupted_removal_recovers_prefix s hi h k h1 h2 hk).2)
+
+/-- the order is needed: removing the oldest first and stopping after one removal leaves the newer block's temp behind,
+out of reach of `loadTemps` (nothing below it) until the next commit fills the gap -- then it is back -/
+theorem bottom_up_witness :
+    let s := run fixed [.commit, .commit]
+    let r := recovered false s 0 1
+    r.mem = [] ∧ reopen fixed (step fixed r .commit) = [2, 1] ∧ (step fixed r .commit).mem = [2] := by decide
+
+/-- non-vacuity of the theorem's premises: two unmerged blocks, the removal of both stops after the first -/
+example :
+    let s := run fixed [.commit, .commit, .commit, .mergePerm]
+    C20.Inv s ∧ s.perm ≤ 1 ∧ 1 < s.perm + s.mem.length ∧ (recovered true s 1 1).mem = [1] := by
+  refine ⟨inv_run _, by decide, by decide, by decide⟩
+end removal
+
 theorem facts_ok :
     Gen.C21.permMapAfterBatches = true ∧ Gen.C21.markerIsLastWriteOfCommit = true ∧ Gen.C21.tempsLoadedAbovePermanentLast = true ∧
-    Gen.C21.onlyMergedTempsLoaded = true ∧ Gen.C21.tempRemovedAfterMerge = true ∧ Gen.C21.extractErrors = [] := by decide
+    Gen.C21.onlyMergedTempsLoaded = true ∧ Gen.C21.tempRemovedAfterMerge = true ∧ Gen.C21.removeBlocksNewestFirst = true ∧ Gen.C21.extractErrors = [] := by decide
 
 theorem source_pinned : Gen.C21.pins = Pins.C21 := by decide
 
